@@ -41,8 +41,8 @@ ASSUMPTIONS = [
     "quarter turns are judged in the coordinate and voxel-centre expressions only (a rotation of voxel *corners* does not map voxels onto voxels)",
 ]
 FLOORS = {
-    "quick": {"contract:rotation_state": 1500, "round_trip": 3000, "warp_exact": 500, "coordinate_transformation": 40},
-    "thorough": {"contract:rotation_state": 15000, "round_trip": 30000, "warp_exact": 5000, "coordinate_transformation": 400},
+    "quick": {"contract:rotation_state": 1500, "round_trip": 3000, "warp_exact": 500, "coordinate_transformation": 90},
+    "thorough": {"contract:rotation_state": 15000, "round_trip": 30000, "warp_exact": 5000, "coordinate_transformation": 900},
 }
 SHARD_TIMEOUT = {"quick": 1500, "thorough": 6000}
 
@@ -50,7 +50,7 @@ SHARD_TIMEOUT = {"quick": 1500, "thorough": 6000}
 def shards(tier, seed):
     k = 16
     q = tier == "quick"
-    return [{"shard": i, "n_pts": (2000 if q else 20000) // k + 1, "n_warp": (600 if q else 6000) // k + 1, "n_ct": (48 if q else 480) // k} for i in range(k)]
+    return [{"shard": i, "n_pts": (2000 if q else 20000) // k + 1, "n_warp": (600 if q else 6000) // k + 1, "n_ct": (96 if q else 960) // k} for i in range(k)]
 
 
 def pullback(src, dst_shape, src_of):
@@ -307,9 +307,10 @@ def run_shard(spec, R):
         o[0] += shift[1] * h
         o[1] -= shift[0] * h
         dimg = darsia.Image(np.zeros(dshape), space_dim=2, dimensions=[dshape[0] * h, dshape[1] * h], scalar=True, origin=o.tolist())
-        isometry = bool(n % 2)
-        mode = ["coordinate", "voxel"][(n // 2) % 2]
-        tv = np.array([int(rng.integers(-2, 3)), int(rng.integers(-2, 3))]) if n % 3 else np.zeros(2, int)
+        g = n * 16 + spec["shard"]  # rotate the option lattice over all shards
+        isometry = bool(g % 2)
+        mode = ["coordinate", "voxel"][(g // 2) % 2]
+        tv = np.array([int(rng.integers(-2, 3)), int(rng.integers(-2, 3))]) if g % 3 else np.zeros(2, int)
         # four corner points and their images under the physical translation by tv voxels
         vox = np.array([[0, 0], [shape[0], 0], [shape[0], shape[1]], [0, shape[1]]])
         if mode == "coordinate":
